@@ -37,15 +37,21 @@ Obligations and witness keys
 
 Bounds
 ------
-quick   : 160 boxes (any origin in [-4pi,4pi], widths 1e-4 .. 3pi, poles, seam, thin bands) against
-          ALL 84 tiles of depths 1..3 in both systems; 240 boxes seeded around a pixel centre of a
-          random tile of depth 1..12 (path check); 90 TAN images (1..2000 px, 0.3 arcsec .. 3 deg per
-          pixel, any rotation, both parities, RA=0 / poles / random) x 14 probe points on and inside
-          the footprint edge x 2 depths (tile pixel between 4x finer and 2x coarser than the image pixel,
-          capped at depth 13); degree-scale images additionally against all tiles to depth 3; 10 chunk
-          grids (all tiles to depth 3 + seeded probes at the chunk borders to depth 9); e2e: 8 WCS
-          images at depth 2..3, 5 chunked maps at depth 1..2.
-thorough: 5x..8x those numbers, depth <= 15 for seeded probes, all tiles to depth 4 for boxes.
+quick   : 160 boxes (any origin in [-4pi,4pi] +- 6pi, widths 1e-4 .. 3pi, poles, seam, thin bands) against
+          ALL 84 tiles of depths 1..3 (alternating system); 240 boxes seeded around a pixel centre
+          (corner/edge/random pixel) of a random tile of depth 1..12 (path check); 45 TAN images
+          (1..2000 px, 1e-4 .. 3 deg per pixel, any rotation, both parities, RA=0 / poles / random)
+          x 10 probe points on the outer half-pixel ring and inside x 2 depths around the image
+          scale (<= 13); images wider than 3 deg additionally against all tiles to depth 3; 500
+          boundary-value images (axes from {1..1000} incl. 29..33) laid with one edge over an extreme
+          pixel of a random tile (depth 2..13, image pixel = 0.5..8 tile pixels); 6 chunk grids (all
+          tiles to depth 3 + 6 border probes per chunk to depth 9); e2e: 8 WCS images (footprint
+          20..70 deg) at depth 2..3 in fits/npy with 1..3 workers, 5 chunked maps (rgb->png,
+          f32->npy/fits, u8->npy) at depth 1..2 in random chunk order.
+thorough: 900 + 2000 boxes (all tiles to depth 4, seeds to depth 15), 400 + 4000 images, 60 chunk
+          grids, e2e 40 + 24.
+Not explored: 8-bit greyscale maps into a PNG pyramid (the PNG 'L' round trip breaks the second
+update of a tile -- an image-mode issue outside this property's quantifier); non-TAN projections.
 
 Trusted: astropy WCS only to *place probe points* and inside toasty; the oracle's projection is
 this module's; numpy/astropy/PIL codecs for read-back.
@@ -869,12 +875,12 @@ def gen_e2e(rng, thorough):
         m = gen_map(rng, i)
         if m["H"] * m["W"] < 4:
             m = gen_map(rng, i + 3)
-        kind = ["rgb", "f32", "rgb", "f32", "rgb"][i % 5]
+        kind = ["rgb", "f32", "u8", "f32", "rgb"][i % 5]
         nchunks = (len(m["ycuts"]) - 1) * (len(m["xcuts"]) - 1)
         order = list(range(nchunks))
         rng.shuffle(order)
         out.append(("chunks", {"map": m, "coordsys": "planetary" if i % 3 else "astronomical", "depth": 1 + (i % 2),
-                               "data_kind": kind, "pio_format": {"rgb": "png", "f32": ["npy", "fits"][i % 2]}[kind],
+                               "data_kind": kind, "pio_format": {"rgb": "png", "f32": ["npy", "fits"][i % 2], "u8": "npy"}[kind],
                                "parallel": [1, 2] if i % 2 else [1], "order": order, "grid": [m["ycuts"], m["xcuts"]]}))
     return out
 
@@ -945,9 +951,9 @@ def run(ctx):
     parts = [
         ("boxes", "part_boxes", {"seed": seed, "n_sweep": 160 if not th else 900, "n_seeded": 240 if not th else 2000,
                                  "sweep_depth": 3 if not th else 4, "max_depth": 12 if not th else 15, "nproc": nproc}, 400 if not th else 900),
-        ("footprints", "part_footprints", {"seed": seed + 1, "n_images": 60 if not th else 500, "max_depth": 13 if not th else 15,
+        ("footprints", "part_footprints", {"seed": seed + 1, "n_images": 45 if not th else 400, "max_depth": 13 if not th else 15,
                                            "nproc": nproc, "probes_per_image": 10 if not th else 20,
-                                           "n_aligned": 500 if not th else 6000}, 400 if not th else 900),
+                                           "n_aligned": 500 if not th else 4000}, 400 if not th else 900),
         ("chunks", "part_chunks", {"seed": seed + 2, "n_maps": 6 if not th else 60, "max_depth": 9 if not th else 12, "nproc": 6}, 400 if not th else 900),
     ]
     ctx.bound("boxes: %d random boxes x all tiles of depths 1..%d x alternating coordinate system; %d boxes seeded on a pixel centre of a "
@@ -998,6 +1004,10 @@ def run(ctx):
             ctx.sample({"part": name, "first_case": res["cases"][0][0]})
         for obl, w, msg in res["problems"]:
             _report(ctx, per, obl, w, msg)
+        if name == "footprints" and res["problems"]:
+            big = [w for obl, w, _m in res["problems"] if obl.endswith("/accepts") and w.get("min_axis", 0) > 31]
+            ctx.note("footprints: rejected-tile reports with an image axis <= 31 px: %d; with both axes >= 32 px: %d"
+                     % (len([1 for obl, w, _m in res["problems"] if obl.endswith("/accepts")]) - len(big), len(big)))
     ctx.monitor("filter_evaluations_on_real_tiles", calls)
     tiles = 0
     for i, (kind, cfg) in enumerate(e2e):
